@@ -1,20 +1,23 @@
 (* C01 — altair.ProcessSyncAggregate (zrnt) against process_sync_aggregate (Spec).
 
-   zrnt rewards/penalises the committee positions in one loop and adds the proposer reward ONCE after the loop
-   (proposerReward * #participants); the spec interleaves `increase_balance(proposer, proposer_reward)` with the
-   loop.  Because decrease_balance saturates at 0 the two are NOT the same function of the balances:
+   The PINNED snapshot rewarded/penalised the committee positions in one loop and added the proposer reward ONCE after
+   the loop (proposerReward * #participants); the spec interleaves `increase_balance(proposer, proposer_reward)` with the
+   loop.  Because decrease_balance saturates at 0 the two are NOT the same function of the balances.  /repo 74b46c6
+   (fixes/C01-sync-aggregate-proposer-reward-order.diff) credits the proposer inside the loop.
 
-     sync_batching_exact            the two loops agree  <->  there is no position where the proposer itself is a
-                                    NON-participating member whose (zrnt-side) balance is below the participant
-                                    reward while proposer rewards are pending   (exact, for all inputs)
-     sync_aggregate_batching_refuted   concrete witness (vm_compute)
-     sync_aggregate_refines_partial    Impl = Spec under `~ sync_bad_shape` + context agreement + no uint64 wrap *)
+     sync_aggregate_refines            REPAIRED code = Spec (Ok/Err alike, no panic) for all states under context
+                                       agreement + no uint64 wrap
+     sync_batching_exact               the interleaved and the batched loop agree  <->  there is no position where the
+                                       proposer itself is a NON-participating member whose (zrnt-side) balance is below
+                                       the participant reward while proposer rewards are pending   (exact, all inputs)
+     sync_aggregate_batching_refuted   concrete witness against the pinned snapshot (vm_compute)
+     sync_aggregate_orig_refines_partial   pinned snapshot = Spec under `~ sync_bad` *)
 From Coq Require Import String.
 From Coq Require Import NArith ZArith Lia List Bool.
 From Coq Require Import ZifyN ZifyNat ZifyBool.
 From RecordUpdate Require Import RecordSet.
 From V Require Import Base.U64 Base.Outcome Ssz.SszCore Beacon.Config Beacon.Schemas Beacon.State
-  Beacon.Spec.Helpers Beacon.Spec.Epoch Beacon.Spec.Block Beacon.Impl.BlockOps Beacon.Refine.BlockLemmas Beacon.Refine.BlockEpc Beacon.Refine.RejectRules.
+  Beacon.Spec.Helpers Beacon.Spec.Epoch Beacon.Spec.Block Beacon.Impl.BlockOps Beacon.Refine.BlockLemmas Beacon.Refine.BlockEpc Beacon.Refine.RejectRules Beacon.Refine.BlockProposer.
 Import ListNotations RecordSetNotations.
 Local Open Scope list_scope.
 Local Open Scope N_scope.
@@ -318,14 +321,14 @@ Section SyncAggregate.
     unfold go_val. destruct (i =? N.of_nat k), b; lia.
   Qed.
 
-  Lemma sync_loop_ok pr bits : forall idxs bals M,
+  Lemma sync_loop_orig_ok pr bits : forall idxs bals M,
     length bits = length idxs ->
     (forall i, In i idxs -> i < N.of_nat (length bals)) ->
     (forall x, In x bals -> x <= M) -> M + N.of_nat (length bits) * pr < two64 ->
-    sync_loop bits idxs pr bals = Ok (fold_left (go_step pr) (combine idxs bits) bals).
+    sync_loop_orig bits idxs pr bals = Ok (fold_left (go_step pr) (combine idxs bits) bals).
   Proof.
     induction bits as [|b bits IH]; intros [|i idxs] bals M Hlen Hidx HM Hb; cbn in Hlen; try discriminate; [reflexivity|].
-    cbn [sync_loop combine fold_left].
+    cbn [sync_loop_orig combine fold_left].
     assert (Hi : i < N.of_nat (length bals)) by (apply Hidx; left; reflexivity).
     destruct (nthN_lt_Some bals i Hi) as [x Hx].
     assert (Hx' : x <= M) by (apply HM; rewrite nthN_eq in Hx; eapply nth_error_In; exact Hx).
@@ -455,18 +458,124 @@ Section SyncAggregate.
   Proof. intros H. apply all_some_length in H. rewrite map_length in H. exact H. Qed.
 
   (* Impl = Spec (acceptance AND rejection, never a panic) for every state and aggregate outside the refuted shape *)
-  Theorem sync_aggregate_refines_partial st epc sa :
+  Theorem sync_aggregate_orig_refines_partial st epc sa :
     cfg_sane E -> epc_ok E st epc -> st_bounds E st ->
     0 < slot st ->
     N.of_nat (length (vbits (vfield sa 0))) = SYNC_COMMITTEE_SIZE c ->                      (* a decoded Bitvector *)
     N.of_nat (length (sc_pubkeys (current_sync_committee st))) = SYNC_COMMITTEE_SIZE c ->  (* a decoded Vector *)
     (forall p, get_beacon_proposer_index E st = Some p ->
-       p < N.of_nat (length (validators st))
-       /\ ~ sync_bad p (sync_pr st) (sync_propr st) (combine (be_sync_indices epc) (vbits (vfield sa 0))) (balances st) 0) ->
-    process_sync_aggregate_impl E epc st sa
+       ~ sync_bad p (sync_pr st) (sync_propr st) (combine (be_sync_indices epc) (vbits (vfield sa 0))) (balances st) 0) ->
+    process_sync_aggregate_orig E epc st sa
     = match process_sync_aggregate E st sa with Some st' => Ok st' | None => Err end.
   Proof.
     intros Hc Hepc Hb Hslot Hbits Hpks Hprop.
+    rewrite process_sync_aggregate_nf. cbv zeta.
+    unfold process_sync_aggregate_orig. cbv zeta. fold c.
+    set (bits := vbits (vfield sa 0)) in *.
+    rewrite Hbits, N.eqb_refl. cbn [check bind].
+    rewrite (eo_sync_pubkeys E st epc Hepc).
+    rewrite sync_select_ok by lia. cbn [bind].
+    assert (Hs0 : (slot st =? GENESIS_SLOT) = false) by (apply N.eqb_neq; unfold GENESIS_SLOT; lia). rewrite Hs0.
+    rewrite div64_ok by (apply (cs_spe_pos E Hc)). cbn [bind].
+    assert (Hh0 : (SLOTS_PER_HISTORICAL_ROOT c =? 0) = false) by (apply N.eqb_neq; pose proof (cs_sphr_pos E Hc); fold c in H; lia).
+    rewrite Hh0. cbn [bind].
+    rewrite (sync_block_root st Hslot (cs_sphr_pos E Hc)).
+    replace (N.max (slot st) 1 - 1) with (slot st - 1) by lia.
+    destruct (nthN (block_roots st) ((slot st - 1) mod SLOTS_PER_HISTORICAL_ROOT c)) as [root|]; [|reflexivity].
+    cbn [of_opt bind]. unfold eth2_fast_aggregate_verify, compute_epoch_at_slot. fold c.
+    match goal with |- context [check ?g] => destruct g end; [|reflexivity]. cbn [check bind].
+    destruct (sync_rewards_ok st epc Hc Hepc (sb_total E st Hb)) as (Hrw & Hprn & Hpp). rewrite Hrw. cbn [bind].
+    rewrite (eo_sync_indices E st epc Hepc).
+    pose proof (eo_sync_indices E st epc Hepc) as Hidx.
+    assert (Hlenidx : length (be_sync_indices epc) = length (sc_pubkeys (current_sync_committee st))).
+    { eapply all_some_map_length. exact Hidx. }
+    assert (Hinr : forall i, In i (be_sync_indices epc) -> i < N.of_nat (length (balances st))).
+    { rewrite (sb_lens E st Hb). eapply all_some_forall; [|exact Hidx]. intros pk r. apply find_pubkey_lt. }
+    assert (HM : forall x, In x (balances st) -> x <= 2 ^ 63) by (intros x Hx; apply (sb_bal E st Hb) in Hx; lia).
+    assert (Hnpr : N.of_nat (length bits) * sync_pr st < 2 ^ 50) by (rewrite Hbits, N.mul_comm; exact Hprn).
+    rewrite (sync_loop_orig_ok (sync_pr st) bits (be_sync_indices epc) (balances st) (2 ^ 63)); try assumption; try lia;
+      [|change (2 ^ 63) with 9223372036854775808; change (2 ^ 50) with 1125899906842624 in Hnpr; unfold two64; lia].
+    cbn [bind]. rewrite <- (eo_proposer E st epc Hepc).
+    destruct (be_proposer epc) as [p|] eqn:Hp; [|reflexivity]. cbn [of_opt bind].
+    rewrite (eo_proposer E st epc Hepc) in Hp. pose proof (Hprop p Hp) as Hgood. pose proof (proposer_in_range E st p Hp) as Hpr.
+    set (G := fold_left (go_step (sync_pr st)) (combine (be_sync_indices epc) bits) (balances st)).
+    assert (HpG : p < N.of_nat (length G)) by (unfold G; rewrite go_fold_length, (sb_lens E st Hb); exact Hpr).
+    destruct (nthN_lt_Some G p HpG) as [gp Hgp].
+    unfold go_increase_balance. rewrite Hgp.
+    assert (Hgpb : gp <= 2 ^ 63 + N.of_nat (length (combine (be_sync_indices epc) bits)) * sync_pr st).
+    { apply (go_fold_bound (sync_pr st) _ (balances st) (2 ^ 63) HM). rewrite nthN_eq in Hgp. eapply nth_error_In. exact Hgp. }
+    rewrite combine_length in Hgpb.
+    assert (Hcnt : N.of_nat (length (select_bits bits (sc_pubkeys (current_sync_committee st)))) <= N.of_nat (length bits)).
+    { pose proof (select_bits_length_le bits (sc_pubkeys (current_sync_committee st))). lia. }
+    assert (Hmul : sync_propr st * N.of_nat (length (select_bits bits (sc_pubkeys (current_sync_committee st)))) < 2 ^ 50).
+    { eapply N.le_lt_trans; [|exact Hnpr]. rewrite (N.mul_comm (N.of_nat (length bits))). apply N.mul_le_mono; assumption. }
+    change (2 ^ 63) with 9223372036854775808 in *. change (2 ^ 50) with 1125899906842624 in *.
+    rewrite mul64_small by (unfold two64; lia). rewrite add64_small by (unfold two64; nia).
+    rewrite (select_bits_parts bits _ (be_sync_indices epc)) by lia.
+    rewrite (setN_updN G p (fun y => y + sync_propr st * parts (combine (be_sync_indices epc) bits)) gp Hgp).
+    cbn [bind].
+    assert (Hex : spec_loop p (sync_pr st) (sync_propr st) (combine (be_sync_indices epc) bits) (balances st)
+                  = go_batched p (sync_pr st) (sync_propr st) (combine (be_sync_indices epc) bits) (balances st)).
+    { apply sync_batching_exact; [rewrite (sb_lens E st Hb); exact Hpr|exact Hgood]. }
+    rewrite Hex. reflexivity.
+  Qed.
+
+  (* ---------- the repaired loop (fixes/C01-sync-aggregate-proposer-reward-order.diff): equal to the spec for ALL states ---------- *)
+  Lemma spec_balance_bound p pr propr bals i b M :
+    (forall x, In x bals -> x <= M) -> forall x, In x (spec_step p pr propr bals (i, b)) -> x <= M + (pr + propr).
+  Proof.
+    intros H x Hin. apply In_nth_error in Hin. destruct Hin as [k Hk].
+    assert (Hk' : nthN (spec_step p pr propr bals (i, b)) (N.of_nat k) = Some x) by (rewrite nthN_eq, Nat2N.id; exact Hk).
+    rewrite nthN_spec_step in Hk'. destruct (nthN bals (N.of_nat k)) as [y|] eqn:Hy; [|discriminate].
+    injection Hk' as <-. assert (y <= M) by (apply H; eapply nthN_In; exact Hy).
+    unfold spec_val. destruct b, (i =? N.of_nat k), (p =? N.of_nat k); lia.
+  Qed.
+
+  Lemma sync_loop_ok p pr propr bits : forall idxs bals M,
+    length bits = length idxs ->
+    (forall i, In i idxs -> i < N.of_nat (length bals)) -> p < N.of_nat (length bals) ->
+    (forall x, In x bals -> x <= M) -> M + N.of_nat (length bits) * (pr + propr) < two64 ->
+    sync_loop bits idxs p pr propr bals = Ok (fold_left (spec_step p pr propr) (combine idxs bits) bals).
+  Proof.
+    induction bits as [|b bits IH]; intros [|i idxs] bals M Hlen Hidx Hp HM Hb; cbn in Hlen; try discriminate; [reflexivity|].
+    cbn [sync_loop combine fold_left].
+    assert (Hi : i < N.of_nat (length bals)) by (apply Hidx; left; reflexivity).
+    destruct (nthN_lt_Some bals i Hi) as [x Hx].
+    assert (Hx' : x <= M) by (apply HM; eapply nthN_In; exact Hx).
+    cbn [length] in Hb.
+    assert (Hstep : (if b then b1 <~ go_increase_balance bals i pr ;; go_increase_balance b1 p propr
+                     else go_decrease_balance bals i pr) = Ok (spec_step p pr propr bals (i, b))).
+    { unfold spec_step, addb, subb. destruct b.
+      - unfold go_increase_balance at 1. rewrite Hx, add64_small by lia.
+        rewrite (setN_updN bals i (fun y => y + pr) x Hx). cbn [bind].
+        set (B1 := updN bals i (fun y => y + pr)).
+        assert (Hp1 : p < N.of_nat (length B1)) by (unfold B1; rewrite updN_length; exact Hp).
+        destruct (nthN_lt_Some B1 p Hp1) as [y Hy].
+        assert (Hyb : y <= M + pr).
+        { unfold B1 in Hy. rewrite nthN_updN in Hy. destruct (nthN bals p) as [z|] eqn:Hz; [|discriminate].
+          injection Hy as <-. assert (z <= M) by (apply HM; eapply nthN_In; exact Hz). destruct (i =? p); lia. }
+        unfold go_increase_balance. rewrite Hy, add64_small by lia.
+        rewrite (setN_updN B1 p (fun z => z + propr) y Hy). reflexivity.
+      - unfold go_decrease_balance. rewrite Hx.
+        replace (if pr <=? x then x - pr else 0) with (x - pr) by (destruct (N.leb_spec pr x); lia).
+        rewrite (setN_updN bals i (fun y => y - pr) x Hx). reflexivity. }
+    rewrite Hstep. cbn [bind]. apply (IH idxs _ (M + (pr + propr))).
+    - lia.
+    - intros j Hj. rewrite spec_step_length. apply Hidx. right. exact Hj.
+    - rewrite spec_step_length. exact Hp.
+    - apply spec_balance_bound. exact HM.
+    - lia.
+  Qed.
+
+  Theorem sync_aggregate_refines st epc sa :
+    cfg_sane E -> epc_ok E st epc -> st_bounds E st ->
+    0 < slot st ->
+    N.of_nat (length (vbits (vfield sa 0))) = SYNC_COMMITTEE_SIZE c ->
+    N.of_nat (length (sc_pubkeys (current_sync_committee st))) = SYNC_COMMITTEE_SIZE c ->
+    process_sync_aggregate_impl E epc st sa
+    = match process_sync_aggregate E st sa with Some st' => Ok st' | None => Err end.
+  Proof.
+    intros Hc Hepc Hb Hslot Hbits Hpks.
     rewrite process_sync_aggregate_nf. cbv zeta.
     unfold process_sync_aggregate_impl. cbv zeta. fold c.
     set (bits := vbits (vfield sa 0)) in *.
@@ -490,31 +599,15 @@ Section SyncAggregate.
     assert (Hinr : forall i, In i (be_sync_indices epc) -> i < N.of_nat (length (balances st))).
     { rewrite (sb_lens E st Hb). eapply all_some_forall; [|exact Hidx]. intros pk r. apply find_pubkey_lt. }
     assert (HM : forall x, In x (balances st) -> x <= 2 ^ 63) by (intros x Hx; apply (sb_bal E st Hb) in Hx; lia).
-    assert (Hnpr : N.of_nat (length bits) * sync_pr st < 2 ^ 50) by (rewrite Hbits, N.mul_comm; exact Hprn).
-    rewrite (sync_loop_ok (sync_pr st) bits (be_sync_indices epc) (balances st) (2 ^ 63)); try assumption; try lia;
-      [|change (2 ^ 63) with 9223372036854775808; change (2 ^ 50) with 1125899906842624 in Hnpr; unfold two64; lia].
-    cbn [bind]. rewrite <- (eo_proposer E st epc Hepc).
+    rewrite <- (eo_proposer E st epc Hepc).
     destruct (be_proposer epc) as [p|] eqn:Hp; [|reflexivity]. cbn [of_opt bind].
-    rewrite (eo_proposer E st epc Hepc) in Hp. destruct (Hprop p Hp) as [Hpr Hgood].
-    set (G := fold_left (go_step (sync_pr st)) (combine (be_sync_indices epc) bits) (balances st)).
-    assert (HpG : p < N.of_nat (length G)) by (unfold G; rewrite go_fold_length, (sb_lens E st Hb); exact Hpr).
-    destruct (nthN_lt_Some G p HpG) as [gp Hgp].
-    unfold go_increase_balance. rewrite Hgp.
-    assert (Hgpb : gp <= 2 ^ 63 + N.of_nat (length (combine (be_sync_indices epc) bits)) * sync_pr st).
-    { apply (go_fold_bound (sync_pr st) _ (balances st) (2 ^ 63) HM). rewrite nthN_eq in Hgp. eapply nth_error_In. exact Hgp. }
-    rewrite combine_length in Hgpb.
-    assert (Hcnt : N.of_nat (length (select_bits bits (sc_pubkeys (current_sync_committee st)))) <= N.of_nat (length bits)).
-    { pose proof (select_bits_length_le bits (sc_pubkeys (current_sync_committee st))). lia. }
-    assert (Hmul : sync_propr st * N.of_nat (length (select_bits bits (sc_pubkeys (current_sync_committee st)))) < 2 ^ 50).
-    { eapply N.le_lt_trans; [|exact Hnpr]. rewrite (N.mul_comm (N.of_nat (length bits))). apply N.mul_le_mono; assumption. }
+    rewrite (eo_proposer E st epc Hepc) in Hp.
+    assert (Hpr : p < N.of_nat (length (balances st))) by (rewrite (sb_lens E st Hb); apply (proposer_in_range E st p Hp)).
     change (2 ^ 63) with 9223372036854775808 in *. change (2 ^ 50) with 1125899906842624 in *.
-    rewrite mul64_small by (unfold two64; lia). rewrite add64_small by (unfold two64; nia).
-    rewrite (select_bits_parts bits _ (be_sync_indices epc)) by lia.
-    rewrite (setN_updN G p (fun y => y + sync_propr st * parts (combine (be_sync_indices epc) bits)) gp Hgp).
-    cbn [bind].
-    assert (Hex : spec_loop p (sync_pr st) (sync_propr st) (combine (be_sync_indices epc) bits) (balances st)
-                  = go_batched p (sync_pr st) (sync_propr st) (combine (be_sync_indices epc) bits) (balances st)).
-    { apply sync_batching_exact; [rewrite (sb_lens E st Hb); exact Hpr|exact Hgood]. }
-    rewrite Hex. reflexivity.
+    rewrite (sync_loop_ok p (sync_pr st) (sync_propr st) bits (be_sync_indices epc) (balances st) 9223372036854775808);
+      try assumption; try lia.
+    - reflexivity.
+    - rewrite Hbits. unfold two64.
+      assert (SYNC_COMMITTEE_SIZE c * (sync_pr st + sync_propr st) <= 2 * (sync_pr st * SYNC_COMMITTEE_SIZE c)) by nia. lia.
   Qed.
 End SyncAggregate.
